@@ -58,8 +58,15 @@ LITS = {
 }
 
 
-def build(uses, lit):
+# other spellings of an occurrence: an expression another transform rewrites into the literal before the hoister runs
+# (constant folding makes a new True node out of `True&True`); a pattern can only hold the plain literal
+SPELL = {'folded': {'true': '(True&True)'}}
+
+
+def build(uses, lit, spell='plain'):
     text, value, fill = LITS[lit]
+    plain = text
+    text = SPELL.get(spell, {}).get(lit, text)
     vals = {}
     for i in range(NPLACES):
         if i == 16:
@@ -67,8 +74,8 @@ def build(uses, lit):
             vals['P16'] = 'hello world' if (i in uses and lit == 'str') else 'fill16'
         elif i == 14 and lit in ('none', 'true', 'bytes'):
             vals['P14'] = "'slot_a'"           # __slots__ entries must be strings
-        elif i == 13 and i not in uses:
-            vals['P13'] = '12345'
+        elif i == 13:
+            vals['P13'] = plain if i in uses else '12345'
         elif i == 17:
             vals['P17'] = text if (i in uses and lit == 'str') else "'docfn doc'"
         else:
@@ -180,7 +187,7 @@ def observe(job):
     import python_minifier
     uses = applicable(job['uses'], job['lit'])
     text, value, _f = LITS[job['lit']]
-    src = build(set(uses), job['lit'])
+    src = build(set(uses), job['lit'], job.get('spell', 'plain'))
     try:
         compile(src, 'in', 'exec')
     except SyntaxError as e:
